@@ -112,14 +112,16 @@ Theorem C06_move_block_hull_refuted :
 Proof. exact move_block_hull_refuted. Qed.
 Print Assumptions C06_move_block_hull_refuted.
 
-(** ... and the block [s0; s1] of the same example makes forwarding fail with AssertionError ([Crash]),
-    which is neither a cursor nor InvalidCursorError *)
-Theorem C06_move_block_crash_refuted :
+(** ... and the block [s0; s1] of the same example is not forwarded: regression record — with the former
+    asserts ([code_with_asserts]) forwarding failed with AssertionError ([Crash]), which is neither a cursor nor
+    InvalidCursorError; the code as it is now ([code_now]) reports InvalidCursorError *)
+Theorem C06_move_block_assert_before_fix_refuted :
   valid_edit hull_cex_tree hull_cex_edit /\ move_pre hull_cex_edit /\
   valid_cursor hull_cex_tree (CBlock [] Body 0 2) /\
-  fwd_edit code_now hull_cex_edit hull_cex_tree (CBlock [] Body 0 2) = Crash.
+  fwd_edit code_with_asserts hull_cex_edit hull_cex_tree (CBlock [] Body 0 2) = Crash /\
+  fwd_edit code_now hull_cex_edit hull_cex_tree (CBlock [] Body 0 2) = Invalid.
 Proof. exact move_block_crash_refuted. Qed.
-Print Assumptions C06_move_block_crash_refuted.
+Print Assumptions C06_move_block_assert_before_fix_refuted.
 
 (** Under [move_ok] (= [move_pre], a non-empty moved block, and — for block cursors — [move_blk_okb]: a block
     on the source list is disjoint from the moved range or inside it, a block on the target list does not
